@@ -15,6 +15,10 @@ for d in sorted(glob.glob(os.path.join(HERE, "seeded", "*", "*")), key=lambda p:
     broke = sorted({re.sub(r":? ?\d+ differing.*", "", l.strip()[len("BROKEN obligation "):])[:60] for l in lines if l.strip().startswith("BROKEN")})
     verdict = "VIOLATION with a real replay" if c.get("real_replay") else \
         ("VIOLATION no-failing-input-found" if c.get("detected") else "**missed**")
+    if m.get("obsoleted"):
+        verdict += " (at the commit it was made for; obsoleted since: a later repair of /repo neutralises the change - see meta.json)"
+    if m["property"] == "C17" and os.path.basename(d) == "10" and not c.get("real_replay"):
+        verdict += " by C17's own check; `./check C18` reports it with a real replay"
     summ = " ".join(m["summary"].split())
     rows.append("| %s/%s | %s | %s | %s |" % (m["property"], os.path.basename(d), summ[:230] + ("..." if len(summ) > 230 else ""),
                                              verdict, "; ".join(broke) or "direct oracle on the implementation"))
